@@ -22,9 +22,11 @@ def sector_data(t, r, salt=0):
     return bytes(((t * 31 + r * 7 + i * (r + 3) + salt) & 0xFF) for i in range(256))
 
 
-def make_track(enc, nsect, t=0, h=0, short_gaps=True):
+def make_track(enc, nsect, t=0, h=0, short_gaps=True, deleted=(), bad_data_crc=()):
     secs = [(t, h, r, sector_data(t, r)) for r in range(nsect)]
     kw = dict(index_mark=False, gap1=6, gap3=10) if short_gaps else {}
+    kw['deleted'] = set(deleted)
+    kw['bad_data_crc'] = set(bad_data_crc)
     if enc == 'F':
         bits, spans = flux.fm_track(secs, **kw)
     else:
@@ -32,9 +34,10 @@ def make_track(enc, nsect, t=0, h=0, short_gaps=True):
     return secs, bits, spans
 
 
-def crc_ok(enc, data, crc, mark=0xFB):
+def crc_ok(enc, data, crc):
+    """the data field passes CRC-16/CCITT under the data mark or the deleted-data mark"""
     pre = b'' if enc == 'F' else b'\xa1\xa1\xa1'
-    return flux.crc16(pre + bytes([mark]) + data + crc) == 0
+    return any(flux.crc16(pre + bytes([mark]) + data + crc) == 0 for mark in (0xFB, 0xF8))
 
 
 def judge(enc, secs, yielded, res, sig, fault_desc):
@@ -66,7 +69,8 @@ def w_sweep(case):
     res = mkres()
     try:
         enc, nsect, kind, param = case['enc'], case['nsect'], case['kind'], case.get('param', 0)
-        secs, bits, spans = make_track(enc, nsect)
+        deleted, badcrc = case.get('deleted', []), case.get('badcrc', [])
+        secs, bits, spans = make_track(enc, nsect, deleted=deleted, bad_data_crc=badcrc)
         lo, hi = case.get('lo', 0), case.get('hi', 0xFFFFFFFF)
         r = mcx.call('san', mcx.req_sweep(enc, kind, param, bits, lo, hi))
         if r.status() != 'exit0':
@@ -76,8 +80,17 @@ def w_sweep(case):
             return res
         rd = mcx.Reader(r.out)
         pristine = rd.sectors_full()
-        if [(a, d) for a, d, c in pristine] != [((c, h, rr), d) for c, h, rr, d in secs]:
-            res['viol'].append(('C06:pristine-track-not-decoded', 'enc=%s: decoder did not return the recorded sectors' % enc))
+        expect_pristine = [((c, h, rr), d) for i, (c, h, rr, d) in enumerate(secs) if i not in deleted and i not in badcrc]
+        got_pristine = [(a, d) for a, d, c in pristine]
+        # a deleted-data record with a good CRC may or may not be yielded (the property is about damaged data only)
+        allsecs = [((c, h, rr), d) for c, h, rr, d in secs]
+        if got_pristine != expect_pristine and not (deleted and not badcrc and got_pristine == allsecs):
+            if any(a == tuple(secs[i][:3]) for i in badcrc for a, _ in got_pristine):
+                res['viol'].append(('C06:%s:record-with-bad-crc-yielded%s' % ('fm' if enc == 'F' else 'mfm', ':deleted-mark' if deleted else ''),
+                                    'undamaged read of a track whose sector %s has a bad data CRC%s yields that sector' % (badcrc, ' under a deleted-data mark' if deleted else '')))
+            else:
+                res['viol'].append(('C06:pristine-track-not-decoded', 'enc=%s deleted=%s badcrc=%s: decoder returned %s' % (
+                    enc, deleted, badcrc, [a for a, _ in got_pristine])))
             res['case'] = case
             return res
         idx = 0
@@ -85,7 +98,8 @@ def w_sweep(case):
         pos = lo
         while not rd.eof():
             y = rd.sectors_compact()
-            judge('F' if enc == 'F' else 'M', secs, y, res, 'C06:%s:%s' % ('fm' if enc == 'F' else 'mfm', KINDS[kind]),
+            judge('F' if enc == 'F' else 'M', [x for i, x in enumerate(secs) if i not in badcrc], y, res,
+                  'C06:%s:%s%s' % ('fm' if enc == 'F' else 'mfm', KINDS[kind], ':deleted-record' if deleted else ''),
                   '%s track of %d sectors, %s at %s %d' % ('FM' if enc == 'F' else 'MFM', nsect, KINDS[kind],
                                                           'byte' if kind == 5 else 'bit', pos))
             res['n'] += 1
@@ -182,7 +196,7 @@ def disc_surface(ntracks, spt):
     return bytes(img)
 
 
-DAMAGES = ['data-crc', 'id-crc', 'data-mark']
+DAMAGES = ['data-crc', 'id-crc', 'data-mark', 'deleted-bad-crc']
 
 
 def build_damaged(container, ntracks, spt, damaged, how):
@@ -201,6 +215,9 @@ def build_damaged(container, ntracks, spt, damaged, how):
             kw['bad_data_crc'] = idx
         elif how == 'id-crc':
             kw['bad_id_crc'] = idx
+        elif how == 'deleted-bad-crc':
+            kw['bad_data_crc'] = idx
+            kw['deleted'] = idx
         elif how == 'data-mark':
             kw['drop_data_mark' if enc == 'FM' else 'drop_data_sync'] = idx
         if enc == 'FM':
@@ -245,7 +262,7 @@ def w_image(case):
                 want = surf[(t * spt + r) * 256:(t * spt + r + 1) * 256]
                 if got == want:
                     bump(res, 'read-correct' if (t, r) not in damaged else 'read-correct-though-damaged')
-                    if (t, r) in damaged and how == 'data-crc':
+                    if (t, r) in damaged and how in ('data-crc', 'deleted-bad-crc'):
                         res['viol'].append((sig + ':damaged-sector-returned', 'sector (%d,%d) has a bad data CRC but was returned' % (t, r)))
                 else:
                     where = [(tt, r2) for tt in range(nt) for r2 in range(spt)
@@ -286,6 +303,16 @@ def fam_single(tier):
         for L in (1, 2, 8, 16, 64, 300):
             for lo in range(0, n // 8 + 1, 300):
                 yield {'w': 'sweep', 'enc': enc, 'nsect': 3, 'kind': 5, 'param': L, 'lo': lo, 'hi': lo + 300}
+
+
+def fam_deleted(tier):
+    """tracks containing a deleted-data record (mark F8), with a good and with a bad data CRC, and an ordinary record with a bad CRC: every single bit flip"""
+    for enc in ('F', 'M'):
+        for deleted, badcrc in (([1], []), ([1], [1]), ([], [1]), ([0], [0]), ([2], [2])):
+            n = len(make_track(enc, 3, deleted=deleted, bad_data_crc=badcrc)[1])
+            chunk = 3000
+            for lo in range(0, n + 1, chunk):
+                yield {'w': 'sweep', 'enc': enc, 'nsect': 3, 'kind': 1, 'param': 1, 'lo': lo, 'hi': lo + chunk, 'deleted': deleted, 'badcrc': badcrc}
 
 
 def fam_full(tier):
@@ -335,7 +362,7 @@ def fam_image(tier):
                 yield {'w': 'image', 'container': container, 'ntracks': 2, 'spt': spt, 'how': how, 'damaged': [(0, r), (1, r)]}
 
 
-FAMILIES = [('S-single-faults-3-sector-tracks', fam_single), ('I-image-level-damaged-subsets', fam_image),
+FAMILIES = [('S-single-faults-3-sector-tracks', fam_single), ('D-deleted-and-bad-crc-records', fam_deleted), ('I-image-level-damaged-subsets', fam_image),
             ('P-flip-pairs-structure-bits', fam_pairs), ('F-full-track-single-faults', fam_full)]
 
 
